@@ -343,7 +343,7 @@ class AnsiString:
             remove_and_add_settings = []
             settings_at_start = self.ansi_settings_at(start)
             for setting in settings_at_start:
-                if setting not in self._fmts[start].add:
+                if __class__._find_setting_reference(setting, self._fmts[start].add) < 0:
                     remove_and_add_settings.append(setting)
             if remove_and_add_settings:
                 self._fmts[start].insert_settings(False, remove_and_add_settings)
